@@ -41,6 +41,15 @@ def is_new_helper(key: str) -> bool:
     return bool(known_functions()) and key not in known_functions()
 
 
+def _is_new_class(cname: str) -> bool:
+    """A class none of whose methods exists on the reference tree (and that is not one of its method-less classes)."""
+    known = known_functions()
+    return bool(known) and not any(k.startswith(cname + ".") for k in known) and cname not in _REFERENCE_CLASSES
+
+
+_REFERENCE_CLASSES = {"PolyhedralSyntaxOperator", "PolyhedralSyntaxEqlExpression", "PolyhedralSyntaxIneqExpression", "IncompatibleArgsError", "ContractFormatError", "PolyhedralSyntaxException", "PolyhedralSyntaxConvexException", "FileDataFormatException"}
+
+
 def const(v) -> V:
     return ("const", v)
 
@@ -145,6 +154,7 @@ class _Run:
         self.site = 0
         self.fstack: List[FuncInfo] = []
         self.loopdepth = 0
+        self._closures: Dict[int, Any] = {}
         self.decided: Dict[Any, bool] = {}
 
     def choose(self, n: int, tag: str) -> int:
@@ -180,6 +190,43 @@ class _Run:
         return p
 
     # ------------------------------------------------------------ statements
+    def apply_value(self, fn: V, args, node) -> Optional[V]:
+        """Call a function VALUE (a function of the package, a local function, a lambda) on argument values; None when
+        the value is not one this simulator can enter."""
+        if isinstance(fn, tuple) and fn and fn[0] == "func":
+            fi_ = self.prog.funcs.get(fn[1])
+            if fi_ is not None and fi_.kind in ("function", "static"):
+                return self.inline_call(fn[1], tuple(args), (), node, None)
+            return None
+        if isinstance(fn, tuple) and fn and fn[0] == "attr" and len(fn) == 3:
+            # a bound method value (obj.method): the call obj.method(args)
+            self.site += 1
+            v = ("mcall", fn[2], fn[1], tuple(args), (), self.site)
+            self.ev("call", callee="." + fn[2], f=fn, recv=fn[1], args=tuple(args), kws=(), node=node, result=v)
+            return v
+        if isinstance(fn, tuple) and fn and fn[0] == "closure" and fn[2] in self._closures:
+            fnode, env0, frame = self._closures[fn[2]]
+            a_ = fnode.args
+            names = [x.arg for x in a_.args]
+            if a_.vararg or a_.kwarg or len(args) > len(names) or len(self.fstack) > 6:
+                return None
+            env1 = dict(env0)
+            for n_, d_ in zip(reversed(names), reversed(a_.defaults)):
+                env1[n_] = self.eval(d_, dict(env0))
+            for n_, v_ in zip(names, args):
+                env1[n_] = v_
+            if any(n_ not in env1 for n_ in names):
+                return None
+            self.fstack.append(frame)
+            try:
+                self.block(fnode.body, env1)
+                return const(None)
+            except _Return as r:
+                return r.value
+            finally:
+                self.fstack.pop()
+        return None
+
     def block(self, stmts, env):
         for s in stmts:
             self.stmt(s, env)
@@ -275,6 +322,11 @@ class _Run:
                     self.assign(item.optional_vars, ("with", v), env, s)
             self.block(s.body, env)
             return
+        if isinstance(s, ast.FunctionDef):
+            # a local function: a value that sees the variables of the enclosing call (by reference, as in Python)
+            self._closures[id(s)] = (s, env, self.fstack[-1])
+            env[s.name] = ("closure", s.name, id(s))
+            return
         if isinstance(s, (ast.FunctionDef, ast.ClassDef, ast.Import, ast.ImportFrom, ast.Global, ast.Nonlocal, ast.Delete)):
             if isinstance(s, ast.Delete):
                 for t in s.targets:
@@ -287,7 +339,8 @@ class _Run:
         sl = self.sim.seq_len
         if isinstance(it, tuple) and it and it[0] == "tuple":
             return len(it[1])  # a tuple display (or a constant table): as many iterations as items
-        if not sl or not isinstance(it, tuple) or not it:
+        sl = sl or {}
+        if not isinstance(it, tuple) or not it:
             return None
         if it in sl:
             return sl[it]
@@ -408,6 +461,10 @@ class _Run:
                 # a, b = X[k:]   ->   items k, k+1 of X
                 for i, e in enumerate(t.elts):
                     self.assign(e, ("item", v[1], i + v[2][1][1]), env, node)
+            elif isinstance(v, tuple) and v and v[0] in ("listcomp", "genexp") and len(v) == 3 and self.known_len(v) == len(t.elts):
+                # a, b = [f(x) for x in (p, q)]   ->   f(p), f(q)
+                for i, e in enumerate(t.elts):
+                    self.assign(e, self.element(v, getattr(node, "lineno", 0), i), env, node)
             else:
                 for i, e in enumerate(t.elts):
                     self.assign(e, ("item", v, i), env, node)
@@ -518,6 +575,9 @@ class _Run:
             if op in ("In", "NotIn") and is_const(l) and r[0] in ("set", "list", "tuple") and all(is_const(x) for x in r[1]):
                 res = l[1] in [x[1] for x in r[1]]
                 return const(res if op == "In" else not res)
+            if op in ("In", "NotIn") and is_const(l) and r[0] == "dict" and all(k_ is not None and is_const(k_) for k_, _v in r[1]):
+                res = l[1] in [k_[1] for k_, _v in r[1]]
+                return const(res if op == "In" else not res)
             if op in ("Is", "IsNot") and is_const(r) and r[1] is None and l[0] in ("call", "list", "dict", "tuple", "set", "bin", "new"):
                 return const(op == "IsNot")
             return ("cmp", op, l, r)
@@ -549,14 +609,31 @@ class _Run:
         okc, val = self.prog.resolve_constant(fi.module, e.id)
         if okc:
             return const(val)  # a named integer / string constant of the package (LP_INFEASIBLE = 2)
-        tab = self.prog.resolve_table(fi.module, e.id)
+        tab = self.prog.resolve_table2(fi.module, e.id)
         if tab is not None:
-            return self.eval(tab, {})  # a constant table of the module: its items are known
+            return self._eval_table(tab)  # a constant table of the package: its items are known
         if e.id in fi.module.assigns:
             return ("global", fi.module.base, e.id)
         if e.id in fi.module.imports:
             return ("ext", fi.module.imports[e.id])
         return ("ext", e.id)
+
+    def _eval_table(self, tab) -> V:
+        """a constant table evaluated among the names of the module it lives in"""
+        node, mi = tab
+
+        class _Frame:
+            module = mi
+            key = mi.base + ".<module>"
+            cls = None
+            params: List[str] = []
+            kind = "function"
+
+        self.fstack.append(_Frame())
+        try:
+            return self.eval(node, {})
+        finally:
+            self.fstack.pop()
 
     def e_Attribute(self, e, env):
         b = self.eval(e.value, env)
@@ -583,9 +660,9 @@ class _Run:
                 okc, val = self.prog.resolve_constant(mi, e.attr)
                 if okc:
                     return const(val)  # a named constant read through the module (lp.INFEASIBLE)
-                tab = self.prog.resolve_table(mi, e.attr)
+                tab = self.prog.resolve_table2(mi, e.attr)
                 if tab is not None:
-                    return self.eval(tab, {})
+                    return self._eval_table(tab)
         if b[0] == "ext":
             return ("ext", b[1] + "." + e.attr)
         if b[0] == "tuple" and len(b) > 2 and e.attr in b[2]:
@@ -598,6 +675,11 @@ class _Run:
 
     def e_Subscript(self, e, env):
         b, i = self.eval(e.value, env), self.eval(e.slice, env)
+        i = self.fold(i)
+        if b[0] == "dict" and is_const(i) and all(k_ is not None and is_const(k_) for k_, _v in b[1]):
+            hits = [v_ for k_, v_ in b[1] if k_[1] == i[1] and type(k_[1]) is type(i[1])]
+            if hits:
+                return hits[-1]  # an entry of a constant table
         if b[0] == "tuple" and len(b) > 2 and is_const(i) and isinstance(i[1], int) and not isinstance(i[1], bool) and -len(b[1]) <= i[1] < len(b[1]):
             return b[1][i[1]]
         return ("sub", b, i)
@@ -682,7 +764,13 @@ class _Run:
         gens = []
         for g in e.generators:
             it = self.eval(g.iter, env2)
-            self.assign(g.target, self.element(it, getattr(e, "lineno", 0), 0), env2, e)
+            lineno_ = getattr(e, "lineno", 0)
+            if isinstance(it, tuple) and it and it[0] == "tuple" and len(it[1]) > 1:
+                # a display of several items: the generic element, not the first one (element i is taken from it later)
+                el_ = ("iter", it, lineno_, 0)
+            else:
+                el_ = self.element(it, lineno_, 0)
+            self.assign(g.target, el_, env2, e)
             conds = tuple(self.eval(c, env2) for c in g.ifs)
             gens.append((it, conds))
         if kind == "dictcomp":
@@ -705,8 +793,16 @@ class _Run:
 
     def e_Call(self, e, env):
         f = self.eval(e.func, env)
+        if f[0] == "ext" and f[1] in ("any", "all") and len(e.args) == 1 and not e.keywords and isinstance(e.args[0], (ast.GeneratorExp, ast.ListComp)) and len(e.args[0].generators) == 1:
+            # unrolled like a loop (before the argument is looked at: evaluating the generator as a value would run
+            # its element once more, outside any iteration)
+            return self.quantifier(f[1], e.args[0], env)
         args = tuple(self.eval(a, env) for a in e.args)
         kws = tuple((k.arg, self.eval(k.value, env)) for k in e.keywords)
+        if f[0] == "ext" and f[1] in ("functools.reduce", "reduce") and len(args) in (2, 3) and not kws:
+            r_ = self._reduce(args, e)
+            if r_ is not None:
+                return r_
         if f[0] == "ext" and f[1] in ("functools.partial", "partial") and args:
             # a function with some arguments fixed: remembered, and unfolded when it is called
             return ("partial", args[0], args[1:], kws)
@@ -756,6 +852,37 @@ class _Run:
                     return self.inline_call(target.key, args, kws, e, f[1])
         return v
 
+    def _reduce(self, args, node) -> Optional[V]:
+        """functools.reduce(f, xs[, start]) unrolled like a loop: as many applications as the scenario's loops have
+        iterations (or as xs has items when that is known)."""
+        fn, it = args[0], args[1]
+        if not (isinstance(fn, tuple) and fn and fn[0] in ("func", "closure", "attr")):
+            return None
+        iters = self.sim.loop_iters
+        fixed = self.known_len(it)
+        if fixed is not None:
+            iters = (fixed,)
+        lineno = getattr(node, "lineno", 0)
+        k = iters[self.choose(len(iters), "reduce@%d" % lineno)] if len(iters) > 1 else iters[0]
+        self.path.decisions.append(("loop@%d iterations" % lineno, k))
+        start = 0
+        if len(args) == 3:
+            acc = args[2]
+        else:
+            if k == 0:
+                raise _Raise("TypeError", node)  # reduce() of an empty sequence with no initial value
+            acc = self.element(it, lineno, 0)
+            start = 1
+            k = max(k, 1)
+        for i in range(start, k):
+            self.ev("loop-iter", node=node, it=it, index=i)
+            r_ = self.apply_value(fn, [acc, self.element(it, lineno, i)], node)
+            if r_ is None:
+                return None
+            acc = r_
+            self.ev("loop-body-end", node=node)
+        return acc
+
     def _positional(self, f: V, args, kws):
         """A call of a function of the package with arguments passed by name is the same call with them passed by
         position: the keywords that continue the positional arguments in parameter order are moved there, so that the
@@ -790,7 +917,12 @@ class _Run:
         """Construction of a NamedTuple class of the package: a tuple whose items can also be read by field name
         (`Rec(*call)` spreads the call's result over the fields)."""
         ci = self.prog.classes.get(f[1])
-        if ci is None or not any(norm(b).split(".")[-1] == "NamedTuple" for b in ci.node.bases) or self.prog.resolve_method(f[1], "__new__") is not None:
+        if ci is None:
+            return None
+        named = any(norm(b).split(".")[-1] == "NamedTuple" for b in ci.node.bases) and self.prog.resolve_method(f[1], "__new__") is None
+        # a dataclass without a constructor of its own that the reference tree does not have: a plain record of fields
+        plain = ci.is_dataclass and _is_new_class(f[1]) and all(self.prog.resolve_method(f[1], m_) is None for m_ in ("__init__", "__post_init__", "__new__")) and not any(b_ in self.prog.classes for b_ in ci.base_names)
+        if not (named or plain):
             return None
         names = [n for n, _d in ci.fields]
         items: List[Optional[V]] = []
@@ -843,6 +975,7 @@ class _Run:
             self.ev("loop-iter", node=comp, it=it, index=i)
             conds = [self.eval(c, env2) for c in g.ifs]
             elt = self.eval(comp.elt, env2)
+            self.ev("loop-body-end", node=comp)
             if kind == "any":
                 parts.append(("boolop", "And", tuple(conds + [elt])) if conds else elt)
             else:
